@@ -903,7 +903,10 @@ def update(
         _log_no_change('update', cfg.version_pattern)
         sys.exit(1)
 
-    uniqueness_check = cfg.tag_scope == config.TagScope.BRANCH or set_version is not None
+    # The new version is only guaranteed to be greater than all existing tags if
+    # the old version was derived from all of them (i.e. not for scope=branch,
+    # --set-version or --ignore-vcs-tag).
+    uniqueness_check = cfg.tag_scope == config.TagScope.BRANCH or set_version is not None or ignore_vcs_tag
 
     if not _is_valid_version(cfg.version_pattern, old_version, new_version, unique=uniqueness_check):
         if set_version:
